@@ -308,6 +308,11 @@ fn avrod_push_policy(alg: &str, bs: usize, chunks: &[&[u8]], policy: &str) -> Ou
                         if std::env::var("VERIF_LOUD").is_ok() {
                             eprintln!("avrod decode err: {e}");
                         }
+                        // the rows completed before the error are still buffered: drain them, so that
+                        // the observable does not depend on when the caller happened to flush
+                        if let Ok(Some(b)) = d.flush() {
+                            batches.push(b);
+                        }
                         return Outcome { batches, verdict: "ERR:decode".into() };
                     }
                 };
